@@ -72,6 +72,9 @@ func (p *regExpParser) scan() {
 			p.error(-1, "Unmatched ')'")
 			p.invalid = true
 			p.pass()
+		case '{':
+			p.pass()
+			p.scanRepeatCount()
 		default:
 			p.pass()
 		}
@@ -99,6 +102,9 @@ func (p *regExpParser) scanGroup() {
 		case '[':
 			p.pass()
 			p.scanBracket()
+		case '{':
+			p.pass()
+			p.scanRepeatCount()
 		default:
 			p.pass()
 			continue
@@ -110,6 +116,22 @@ func (p *regExpParser) scanGroup() {
 		return
 	}
 	p.pass()
+}
+
+// {n} {n,} {n,m}: re2 takes a count written with leading zeros as literal text, so drop them.
+func (p *regExpParser) scanRepeatCount() {
+	for {
+		for p.chr == '0' && p.offset < p.length && isDecimalDigit(rune(p.str[p.offset])) {
+			p.read()
+		}
+		for isDecimalDigit(p.chr) {
+			p.pass()
+		}
+		if p.chr != ',' {
+			return
+		}
+		p.pass()
+	}
 }
 
 // [...].
